@@ -845,20 +845,24 @@ package psatoken
 // a profile derived from profile 1 declares itself under -75000.
 //@ spec cborProfile(b Int) string = ite(cborHas265(b) && cborText265(b) != "", cborText265(b), ite(cborTopIsMap(b) && cborHasPsa(b), cborTextPsa(b), ""))
 
-// isCBORMap: the loop skips tag heads (major type 6) and tests major type 5. Its index / slice safety,
-// termination and frame are proved; that this IS "a map under its tags" for well-formed input is the
-// RFC 8949 head grammar, stated as an assumed clause and audited on the real code by the ground
-// obligation iscbormap-audit (every byte string of length <= 2 and selected longer heads, compared
-// with the independent reader of /verif/harness).
+// isCBORMap: the loop skips tag heads (major type 6) and tests major type 5. It is PROVED against the
+// recursive spec function cborTagWalk (govc/expr.go: cbor_tagwalk, transcribed from RFC 8949 sections 3 and
+// 3.4 -- argument bytes 0/1/2/4/8 for additional information <24/24/25/26/27; 28..31 are not well-formed
+// tag heads, result 2): for every byte string whose tag heads are well formed, the result is true exactly
+// when a map head follows the complete tag heads. Index / slice safety, termination and frame are proved as
+// before. What stays assumed is only the *definition* of the decoder-side predicate cborTopIsMap (over the
+// abstract content used by the assumed codec contracts) by that same walk, and that the decoder refuses
+// reserved tag heads; both audited on the real code by ground:iscbormap-audit and bounded:envelope.
 //@ func isCBORMap
-//@   property C20 C05 C06 C17 C18
-//@   assumes[map] ret == cborTopIsMap(bytesVal(buf)) :: RFC 8949 head grammar (tag head = major type 6 with 0/1/2/4/8 argument bytes); audited by ground:iscbormap-audit and bounded:envelope
+//@   property C20 C05 C06 C17 C18 C07 C04 C16
+//@   ensures[walk] cborTagWalk(old(buf)) != 2 ==> ret == (cborTagWalk(old(buf)) == 1)
+//@   assumes[map] ret == cborTopIsMap(bytesVal(buf)) :: definition of the decoder-side predicate by the RFC 8949 walk that ensures[walk] is proved against (cborTopIsMap(bytesVal(b)) == (cborTagWalk(b) == 1) for well-formed tag heads; reserved tag heads are refused by the decoder); audited by ground:iscbormap-audit and bounded:envelope
 //@   modifies nothing
 //@   option allocs=none
-//@   loop 0 invariant len(buf) <= len(old(buf))
+//@   loop 0 invariant len(buf) <= len(buf0) && (cborTagWalk(buf0) == 2 || cborTagWalk(buf) == cborTagWalk(buf0))
 //@   loop 0 decreases len(buf)
 
-//@ ground[C20] iscbormap-audit : isCBORMapAudit()
+//@ ground[C20 C07 C04] iscbormap-audit : isCBORMapAudit()
 
 //@ func DecodeClaimsFromCBOR
 //@   property C07 C16 C08 C05 C18 C04 C09 C20 C17 C02 C03 C19
